@@ -540,7 +540,7 @@ class Simulation:
         for f in self.faults:
             if f.get("actor", 0) == a.id and f["at"] == op.idx and not f.get("_used"):
                 kind = f["kind"]
-                if kind == "errno" and f["errno"] not in admissible(op.name) and not f.get("force"):
+                if (kind == "errno" and f["errno"] not in admissible(op.name) and not f.get("force")) or (kind == "short" and op.name != "write"):
                     f["_used"] = True
                     self.probes["planned_fault_not_admissible"] += 1
                     continue
